@@ -163,6 +163,7 @@ func (m *vMonC17) AfterTx(h *vHist, o *vTxObs) {
 
 	// --- listings through the real querier
 	m.listings(h, kind)
+	m.keeperListings(h, kind)
 	if len(o.Msgs) == 1 {
 		m.res.Distinct(fmt.Sprintf("%s|ok=%v|n=%d|right=%v", kind, o.OK, len(m.model), o.RightSigner))
 	}
@@ -285,6 +286,74 @@ func (m *vMonC17) listings(h *vHist, kind string) {
 						fmt.Sprintf("listing filter=%+v limit=%d mode=%s returned %d entries %v, registered and matching: %d %v", f, limit, mode, len(got), vTruncList(got), len(want), vTruncList(want)))
 				}
 			}
+		}
+	}
+}
+
+// keeperListings: the keeper's own iteration entry points (what the genesis
+// export and in-process callers list certificates with) must show the same
+// sets as the model.  Their results carry serial, state and content but not
+// the owner, so unfiltered walks are compared without it.
+func (m *vMonC17) keeperListings(h *vHist, kind string) {
+	k := h.c.app.keeper.cert
+	ctx := h.c.ctx()
+	strip := func(want []string) []string {
+		var out []string
+		for _, w := range want {
+			if i := strings.Index(w, "/"); i >= 0 {
+				w = w[i+1:]
+			}
+			out = append(out, w)
+		}
+		sort.Strings(out)
+		return out
+	}
+	collect := func(walk func(fn func(ctypes.CertificateResponse) bool)) (out []string, perr interface{}) {
+		defer func() { perr = recover() }()
+		walk(func(c ctypes.CertificateResponse) bool {
+			out = append(out, fmt.Sprintf("%s|%s|%x", c.Serial, c.Certificate.State, sha8(c.Certificate.Cert)))
+			return false
+		})
+		return out, nil
+	}
+	check := func(name string, f vCertFilter, walk func(fn func(ctypes.CertificateResponse) bool)) {
+		got, perr := collect(walk)
+		m.res.Count("keeper_listings", 1)
+		if perr != nil {
+			h.ViolationOnce("keeper/"+name, "listings-never-fail", "keeper/"+name, fmt.Sprintf("keeper listing %s panicked after %s: %v", name, kind, perr))
+			return
+		}
+		sort.Strings(got)
+		want := strip(m.expected(f))
+		if strings.Join(got, "\n") != strings.Join(want, "\n") {
+			h.ViolationOnce("keeper/"+name+f.Owner, "listing-equals-registered-set", "keeper/"+name,
+				fmt.Sprintf("keeper listing %s filter=%+v returned %d entries %v, registered and matching: %d %v", name, f, len(got), vTruncList(got), len(want), vTruncList(want)))
+		}
+	}
+	states := map[string]ctypes.Certificate_State{"valid": ctypes.CertificateValid, "revoked": ctypes.CertificateRevoked}
+	check("all", vCertFilter{}, func(fn func(ctypes.CertificateResponse) bool) { k.WithCertificates(ctx, fn) })
+	for _, sn := range []string{"valid", "revoked"} {
+		st := states[sn]
+		check("state", vCertFilter{State: sn}, func(fn func(ctypes.CertificateResponse) bool) { k.WithCertificatesState(ctx, st, fn) })
+	}
+	owners := map[string]bool{}
+	for _, rec := range m.model {
+		owners[rec.Owner] = true
+	}
+	var os []string
+	for o := range owners {
+		os = append(os, o)
+	}
+	sort.Strings(os)
+	for _, o := range os {
+		addr, err := sdk.AccAddressFromBech32(o)
+		if err != nil {
+			continue
+		}
+		check("owner", vCertFilter{Owner: o}, func(fn func(ctypes.CertificateResponse) bool) { k.WithOwner(ctx, addr, fn) })
+		for _, sn := range []string{"valid", "revoked"} {
+			st := states[sn]
+			check("owner+state", vCertFilter{Owner: o, State: sn}, func(fn func(ctypes.CertificateResponse) bool) { k.WithOwnerState(ctx, addr, st, fn) })
 		}
 	}
 }
@@ -473,9 +542,9 @@ func vRunC17History(h *vHist, steps int, allowZero bool) {
 
 func TestVerif_C17(t *testing.T) {
 	res := vs.NewResult("C17", "exploration",
-		"create/revoke histories by 3 owners with serials {0,1,127,128,255,256,65535,65536,2^63,2^64,2^64+1,2^159, random 160-bit, 2^160,2^160+1,2^160+256,2^200, 21..24 octets behind one common 20-octet head, random 256-bit} (big-endian encodings prefix one another), duplicates, foreign CNs, certificates of another account resubmitted byte for byte under the own name, foreign and forged signers; after every tx an append-only model is compared with keeper lookups for every (owner,serial) ever named and with the real gRPC querier for every filter shape (none/owner/owner+serial x state) x page sizes {0,1,2,3} x {key,offset} pagination followed to the end. distinct = (message kind, result, registry size, right signer)")
+		"create/revoke histories by 3 owners with serials {0,1,127,128,255,256,65535,65536,2^63,2^64,2^64+1,2^159, random 160-bit, 2^160,2^160+1,2^160+256,2^200, 21..24 octets behind one common 20-octet head, random 256-bit} (big-endian encodings prefix one another), duplicates, foreign CNs, certificates of another account resubmitted byte for byte under the own name, foreign and forged signers; after every tx an append-only model is compared with keeper lookups for every (owner,serial) ever named and with the real gRPC querier for every filter shape (none/owner/owner+serial x state) x page sizes {0,1,2,3} x {key,offset} pagination followed to the end, and with the keeper's own iteration entry points (all / by state / by owner / by owner and state). distinct = (message kind, result, registry size, right signer)")
 	res.Assume("chain driven at the ABCI boundary; the querier is called in-process with the deliver-state context (no gRPC transport)")
-	for _, f := range []string{"created", "revoked", "duplicate_create_rejected", "foreign_create_rejected", "double_revoke_rejected", "revoke_unknown_rejected", "foreign_revoke_rejected", "listings",
+	for _, f := range []string{"created", "revoked", "duplicate_create_rejected", "foreign_create_rejected", "double_revoke_rejected", "revoke_unknown_rejected", "foreign_revoke_rejected", "listings", "keeper_listings",
 		"created_serial_class:zero", "created_serial_class:1byte", "created_serial_class:upto64bit", "created_serial_class:above64bit", "created_serial_class:above160bit"} {
 		res.Floor(f, 1)
 	}
